@@ -410,9 +410,18 @@ class Interp:
 
     def event(self, kind, rid, *vals):
         cur = self.main.current_tt
+        # the routine the clock is playing: the outermost one of the chain
+        t, top = cur, None
+        while t is not None and t is not self.main.main_tt:
+            top = t
+            t = t.parent
+        top_id = None
+        for i, r in self.robj.items():
+            if r is top:
+                top_id = i
         self.trace.append({'ev': kind, 'r': rid, 'secs': cur._seconds,
                            'vals': list(vals), 'now': self.now(),
-                           'state': cur.state.name})
+                           'state': cur.state.name, 'top': top_id})
 
     def stmt(self, rid, rout, clock, st):
         op = st[0]
